@@ -1,6 +1,6 @@
 #!/usr/bin/env python3
-"""Replays the witness of every 'fixed' entry of known_findings.json against a scratch worktree of /repo at a given
-commit (default: the commit before the first fix) and against the current tree.
+"""Replays the witness of every 'fixed' entry of known_findings.json against a scratch worktree of /repo at the entry's
+pre-fix commit ('verify_base' of the entry; default: the original baseline d2f812a) and against the current tree.
 Expected: VIOLATION on the old tree (exit 1), quiet on the current tree (exit 0)."""
 import json
 import os
@@ -9,33 +9,34 @@ import sys
 import tempfile
 
 ROOT = os.path.dirname(os.path.dirname(os.path.abspath(__file__)))
-base = sys.argv[1] if len(sys.argv) > 1 else 'd2f812a'
-wt = tempfile.mkdtemp(prefix='mxv_base_')
-subprocess.check_call(['git', '-C', '/repo', 'worktree', 'add', '-q', '--detach', wt, base])
+default_base = 'd2f812a'
+only = sys.argv[1] if len(sys.argv) > 1 else None        # optional: id substring filter
+d = json.load(open(os.path.join(ROOT, 'known_findings.json')))
+fixed = [e for e in d['findings'] if e['status'] == 'fixed' and (only is None or only in e['id'])]
 bad = 0
-try:
-    d = json.load(open(os.path.join(ROOT, 'known_findings.json')))
-    for e in d['findings']:
-        if e['status'] != 'fixed':
-            continue
-        if e.get('verify_base', base) != base:
-            print('skip %-36s (verify with: tools/verify_fixed.py %s)' % (e['id'], e['verify_base']))
-            continue
-        for prop, ws in e['witnesses'].items():
-            for i, w in enumerate(ws):
-                fd, p = tempfile.mkstemp(suffix='.json')
-                with os.fdopen(fd, 'w') as f:
-                    json.dump(w, f)
-                res = {}
-                for name, repo in (('old', wt), ('now', '/repo')):
-                    env = dict(os.environ, VERIF_REPO=repo)
-                    r = subprocess.run([os.path.join(ROOT, 'check'), prop, '--replay', p], env=env,
-                                       capture_output=True, text=True)
-                    res[name] = r.returncode
-                os.unlink(p)
-                ok = res['old'] == 1 and res['now'] == 0
-                bad += 0 if ok else 1
-                print('%-4s %-36s %s[%d] old=%s now=%s' % ('ok' if ok else 'BAD', e['id'], prop, i, res['old'], res['now']))
-finally:
-    subprocess.call(['git', '-C', '/repo', 'worktree', 'remove', '--force', wt])
+for base in sorted({e.get('verify_base', default_base) for e in fixed}):
+    wt = tempfile.mkdtemp(prefix='mxv_base_')
+    subprocess.check_call(['git', '-C', '/repo', 'worktree', 'add', '-q', '--detach', wt, base])
+    try:
+        for e in fixed:
+            if e.get('verify_base', default_base) != base:
+                continue
+            for prop, ws in e['witnesses'].items():
+                for i, w in enumerate(ws):
+                    fd, p = tempfile.mkstemp(suffix='.json')
+                    with os.fdopen(fd, 'w') as f:
+                        json.dump(w, f)
+                    res = {}
+                    for name, repo in (('old', wt), ('now', '/repo')):
+                        env = dict(os.environ, VERIF_REPO=repo)
+                        r = subprocess.run([os.path.join(ROOT, 'check'), prop, '--replay', p], env=env,
+                                           capture_output=True, text=True)
+                        res[name] = r.returncode
+                    os.unlink(p)
+                    ok = res['old'] == 1 and res['now'] == 0
+                    bad += 0 if ok else 1
+                    print('%-4s %-40s %s[%d] base=%s old=%s now=%s' % ('ok' if ok else 'BAD', e['id'], prop, i, base,
+                                                                         res['old'], res['now']))
+    finally:
+        subprocess.call(['git', '-C', '/repo', 'worktree', 'remove', '--force', wt])
 sys.exit(1 if bad else 0)
